@@ -3,7 +3,8 @@
 From Coq Require Import List String Bool.
 Import ListNotations.
 From KV Require Import Base.Bytes Model.Ast Model.FilterOpt Proofs.RangeProofs
-                       Proofs.FilterOptProofs Proofs.NarrowProofs.
+                       Proofs.FilterOptProofs Proofs.NarrowProofs
+                       Model.Storage Model.ScanIO Model.ScanSem Proofs.StorageProofs Proofs.ScanSemProofs.
 Open Scope string_scope.
 
 (* AND narrows: the region inferred for a conjunction lies inside the region of one of its
@@ -61,6 +62,25 @@ Theorem disjoint_ranges_read_nothing : forall lo hi, bltb hi lo = true ->
   and_regions (RRange None (Some hi)) (RRange (Some lo) None) = REmpty.
 Proof. exact disjoint_ranges_empty. Qed.
 Print Assumptions disjoint_ranges_read_nothing.
+
+(* Execution layer (twin of the scan plans' cursor loops, Model/ScanIO.v, with the done flag of
+   the D23 repair): draining the plan in either mode over any strictly sorted store issues
+   no storage call at all for an empty region, only Get calls on the listed keys for point
+   reads, and for a cursor scan only Cursor / Seek / Next calls whose returned keys lie inside
+   the region except at most one, the last, which ends the scan *)
+Theorem reads_within_region :
+  forall (flt : kvp -> bool) (B fuel : nat) (m : mode) (p : plan) (d : store) (l0 : list scall),
+  1 <= B -> ssorted d -> keys_ok p -> List.length d + plan_keys p < fuel ->
+  exists l, select_log true flt B fuel m p (SState d l0 None) = (l0 ++ l)%list /\ reads_ok (leaf p) l.
+Proof. exact reads_within_region_lemma. Qed.
+Print Assumptions reads_within_region.
+
+(* without the done flag the statement is false: regression witness for D23 *)
+Theorem reads_within_region_needs_done_flag :
+  exists (flt : kvp -> bool) (B fuel : nat) (p : plan) (d : store),
+    1 <= B /\ ssorted d /\ keys_ok p /\ List.length d + plan_keys p < fuel /\
+    ~ reads_ok (leaf p) (select_log false flt B fuel BatchMode p (sinit d None)).
+Proof. exact reads_within_region_needs_done_flag_lemma. Qed.
 
 Example narrowing_example :
   optimize (EBin 0 OAnd (EBin 0 OPrefixMatch (EField 0 KeyKW) (EStr 0 "ab"))
